@@ -105,7 +105,8 @@ def run_case(case, ctx, st):
         fresh = gen.make_data(rng, m, d, "nonneg" if nonneg else "blobs") * float(rng.uniform(0.5, 2.0))
         Q = np.vstack([fresh, X[rng.integers(0, n, size=min(n, 6))]])
         full_l = np.asarray(est.predict(Q))
-        full_p = None if is_kauri else np.asarray(est.predict_proba(Q))
+        full_p_obj = None if is_kauri else est.predict_proba(Q)
+        full_p = None if is_kauri else np.array(full_p_obj, copy=True)
         sets = [rng.permutation(len(Q))]                                  # permutation
         sets += [np.array([int(rng.integers(0, len(Q)))]) for _ in range(3)]  # single rows
         sets += [np.sort(rng.choice(len(Q), size=int(rng.integers(1, len(Q) + 1)), replace=False)) for _ in range(3)]
@@ -134,6 +135,13 @@ def run_case(case, ctx, st):
                     ctx.violation("per-sample", f"labels-depend-on-other-rows/{mech_base}", observed={"idx": idx}, expected="equal")
                     break
             ctx.distinct(name, str(params), tuple(int(x) for x in idx))
+        # a returned array belongs to the caller: later calls on other rows must not rewrite it
+        if full_p_obj is not None:
+            ctx.count("earlier_result_intact_checks")
+            if not np.array_equal(np.asarray(full_p_obj), full_p, equal_nan=True):
+                ctx.violation("per-sample", f"earlier-result-overwritten-by-later-call/{mech_base}",
+                              observed={"max_abs_change": float(np.max(np.abs(np.asarray(full_p_obj) - full_p)))},
+                              expected="the array returned by predict_proba keeps its values")
         ctx.sample({"estimator": name, "n_query": len(Q), "sets": len(sets)})
     except Exception as e:
         ctx.violation("api", f"predict-raises/{mech_base}/{type(e).__name__}", observed=repr(e)[:300], expected="predictions")
